@@ -73,6 +73,7 @@ package fstxn
 //@   ensures result != nil && result.Inum == inum && inodeInv(result) && !dirtyinum[inum] && dirtyInv() && result == op.inodes[inum]
 //@   ensures forall j uint64 :: j != inum ==> op.inodes[j] == old(op.inodes[j])
 //@   assumes [I3-live] liveinum[inum] ==> result.Kind != 0
+//@   assumes [I-dir] result.Kind == 2 ==> dirShape(result)
 
 //@ spec (*FsTxn).GetInodeUnlocked
 //@   props C11 C14
@@ -80,6 +81,7 @@ package fstxn
 //@   requires [owned] held[inum] @C11 @C14
 //@   ensures result != nil && result.Inum == inum && result == op.inodes[inum]
 //@   assumes [S5-cache-inode] inodeInv(result)
+//@   assumes [I-dir] result.Kind == 2 ==> dirShape(result)
 
 //@ spec (*FsTxn).OwnInum
 //@   props C14
@@ -94,7 +96,7 @@ package fstxn
 //@   allocates cache.Cslot, inode.Inode, []uint64, buf.Buf, marshal.Dec, cell:uint64
 //@   modifies held, cache.Cslot.Obj, map[uint64]*inode.Inode
 //@   panic_assumed "getInodeInum"
-//@   ensures [H5-live] result != nil ==> result.Inum == inum && inum < 32768 && result.Kind != 0 && held == store(old(held), inum, true) && inodeInv(result) && !dirtyinum[inum] @C08
+//@   ensures [H5-live] result != nil ==> result.Inum == inum && inum < 32768 && result.Kind != 0 && held == store(old(held), inum, true) && inodeInv(result) && !dirtyinum[inum] && (result.Kind == 2 ==> dirShape(result)) @C08
 //@   ensures [H5-free] result == nil ==> held == old(held) @C08 @C03
 //@   ensures [table] (result != nil ==> result == op.inodes[inum]) && (forall j uint64 :: held[j] && j != inum ==> op.inodes[j] == old(op.inodes[j]))
 //@   assumes [I-live-marked] result != nil ==> abits[theIalloc][inum]
@@ -109,7 +111,7 @@ package fstxn
 //@   requires [D1-order] fhIno(fh3) >= 32768 || canLock(fhIno(fh3)) @C06
 //@   allocates cache.Cslot, inode.Inode, []uint64, buf.Buf, marshal.Dec, cell:uint64
 //@   modifies held, cache.Cslot.Obj, map[uint64]*inode.Inode
-//@   ensures [H1-validated] result != nil ==> result.Inum == fhIno(fh3) && result.Gen == fhGen(fh3) && result.Kind != 0 && held == store(old(held), fhIno(fh3), true) && inodeInv(result) && !dirtyinum[result.Inum] @C08
+//@   ensures [H1-validated] result != nil ==> result.Inum == fhIno(fh3) && result.Gen == fhGen(fh3) && result.Kind != 0 && held == store(old(held), fhIno(fh3), true) && inodeInv(result) && !dirtyinum[result.Inum] && (result.Kind == 2 ==> dirShape(result)) @C08
 //@   ensures [H1-stale] result == nil ==> held == old(held) @C08 @C03
 //@   ensures [I-live-marked] result != nil ==> abits[theIalloc][result.Inum]
 //@   ensures opInv(op) && dirtyInv()
